@@ -37,7 +37,7 @@ MacroBody(bk, ar) ==
 Helper == Macro("hh", <<Param("v")>>, <<T(<<104>>), PrintS(Var("v"))>>)
 
 Forms == {"local", "self", "import", "from", "fromas", "rebind"}
-Sites == {"top", "loop", "block", "if", "include", "macro"}
+Sites == {"top", "loop", "block", "if", "include", "macro", "childblock"}
 
 \* the call expression in the given form
 \* mn: the macro's name ("mm", or the name of a built-in function: a macro is called, not the function)
@@ -75,12 +75,22 @@ Site(c, form, callStmts) ==
       [] c.site = "macro" -> <<Macro("oo", <<Param("x")>>, <<T(<<40>>)>> \o callStmts \o <<T(<<41>>)>>),
                                PrintS(Call("oo", <<Var("x")>>))>> \o After
       [] c.site = "include" -> <<Inc(LS(NT.t2))>> \o After
+      \* the template extends a layout: what it defines / imports at its top level is in force inside its blocks
+      [] c.site = "childblock" -> <<Block("bb", callStmts)>>
 
 Tp(c, form) ==
-    LET call == <<PrintS(CallExpr(MName(c), form, ArgsOf(c)))>> IN
+    LET ce == CallExpr(MName(c), form, ArgsOf(c))
+        \* use = "expr": the call inside larger expressions means the text it renders
+        call == IF "use" \in DOMAIN c /\ c.use = "expr"
+                THEN <<PrintS(Filt("upper", ce, <<>>)), PrintS(Bin("~", ce, LS(<<122>>))), Set("q", ce), PrintS(Var("q")), PrintS(Filt("length", ce, <<>>))>>
+                ELSE <<PrintS(ce)>> IN
     IF c.site = "include" THEN
         ("main" :> Site(c, form, <<>>))
         @@ ("t2" :> (IF IsLocalForm(form) THEN Defs(c) ELSE ImportStmt(MName(c), form)) \o call)
+        @@ ("t1" :> Defs(c)) @@ ("t3" :> OtherLib(MName(c)))
+    ELSE IF c.site = "childblock" THEN
+        ("main" :> <<Extends(LS(NT.t4))>> \o (IF IsLocalForm(form) THEN Defs(c) ELSE ImportStmt(MName(c), form)) \o <<T(<<106>>)>> \o Site(c, form, call))
+        @@ ("t4" :> <<T(<<91>>), Block("bb", <<T(<<100>>)>>), T(<<93>>)>>)
         @@ ("t1" :> Defs(c)) @@ ("t3" :> OtherLib(MName(c)))
     ELSE
         ("main" :> (IF IsLocalForm(form) THEN Defs(c) ELSE ImportStmt(MName(c), form)) \o Site(c, form, call))
@@ -88,7 +98,9 @@ Tp(c, form) ==
 
 \* sibling calls and calls from inside another macro only in the local forms (the
 \* property does not say which imports a macro body sees)
-FormApplies(c, form) == (c.bk = "nested" \/ c.site = "macro") => form = "local"
+\* (a macro of a library sees the library's other macros: "nested" bodies by every route; which imports the body of a
+\* macro of the calling template sees is not stated: site "macro" only in the local form)
+FormApplies(c, form) == (c.site = "macro") => form = "local"
 
 Cases == {[ar |-> ar, defs |-> defs, n |-> n, bk |-> bk, site |-> site, argstyle |-> st]
             : ar \in 0..MaxArity, defs \in SUBSET (1..MaxArity), n \in 0..(MaxArity + 1), bk \in BodyKinds, site \in Sites,
@@ -98,6 +110,8 @@ NamedCases == {[ar |-> 2, defs |-> {2}, n |-> n, bk |-> "print", site |-> site, 
                  : n \in 0..3, site \in {"top", "loop", "include"}, mn \in {"max", "range", "min", "date", "length"}}
 SpyDefCases == {[ar |-> ar, defs |-> defs, n |-> n, bk |-> "print", site |-> site, argstyle |-> "plain", dk |-> "spy"]
                  : ar \in 1..2, defs \in (SUBSET (1..2)) \ {{}}, n \in 0..2, site \in {"top", "loop", "block", "include"}}
+ExprCases == {[ar |-> 1, defs |-> {}, n |-> 1, bk |-> bk, site |-> site, argstyle |-> "plain", use |-> "expr"]
+                : bk \in {"print", "nested"}, site \in {"top", "loop", "block", "childblock"}}
 Valid(c) == /\ c.defs \subseteq 1..c.ar /\ c.n <= c.ar + 1 /\ (c.bk = "nested" => c.ar >= 1)
             /\ (c.argstyle # "plain" => c.n >= 1 /\ c.n <= c.ar /\ c.bk = "print" /\ c.site \in {"top", "loop"})
 
@@ -112,13 +126,13 @@ CaseOf(c) ==
     [prop |-> "C12", key |-> ToJson(c),
      tags |-> {"arity:" \o ToString(c.ar), "argc:" \o ToString(c.n), "body:" \o c.bk, "site:" \o c.site}
               \cup {"default:" \o ToString(i) : i \in c.defs}
-              \cup {"args:" \o c.argstyle, "name:" \o MName(c)} \cup (IF "dk" \in DOMAIN c THEN {"spydefault"} ELSE {}) \cup (IF c.n > c.ar THEN {"extra-arg"} ELSE {}) \cup (IF c.n < c.ar THEN {"omitted-arg"} ELSE {}),
+              \cup {"args:" \o c.argstyle, "name:" \o MName(c)} \cup (IF "use" \in DOMAIN c THEN {"use:expr"} ELSE {}) \cup (IF "dk" \in DOMAIN c THEN {"spydefault"} ELSE {}) \cup (IF c.n > c.ar THEN {"extra-arg"} ELSE {}) \cup (IF c.n < c.ar THEN {"omitted-arg"} ELSE {}),
      entry |-> "main", ctx |-> Ctx,
      runs |-> {[label |-> f, tp |-> Sources(Tp(c, f), LMin), xcalls |-> [id \in {} |-> 0], again |-> 1]
                 : f \in {g \in Forms : FormApplies(c, g)}},
      expect |-> [ok |-> ref.ok, out |-> ref.out, err |-> ref.err, calls |-> [id \in {"d1", "d2"} |-> CountOf(ref.calls, id)]]]
 
-Init == cs \in {c \in Cases \cup NamedCases \cup SpyDefCases : Valid(c) /\ Ref(c, "local").ok}
+Init == cs \in {c \in Cases \cup NamedCases \cup SpyDefCases \cup ExprCases : Valid(c) /\ Ref(c, "local").ok}
 Next == UNCHANGED cs
 Spec == Init /\ [][Next]_cs
 Emit == PrintT(ToJson(CaseOf(cs)))
